@@ -40,6 +40,11 @@ def logical_ops():
     # the body switches the distance mode itself; leaving the block brings back the mode that was active on entry
     ops["ctx_abs_switch"] = mv("ctx_abs_switch", (2, 4, -1))
     ops["ctx_rel_switch"] = mv("ctx_rel_switch", (-4, 2, 1))
+    # the body contains a bypass move / a nested block of the other mode between its plain moves ("retract and come back")
+    ops["ctx_abs_bypass"] = mv("ctx_abs_bypass", (2, 3, 4))
+    ops["ctx_rel_bypass"] = mv("ctx_rel_bypass", (-3, 1, 2))
+    ops["ctx_abs_nested"] = mv("ctx_abs_nested", (1, -2, 3))
+    ops["ctx_rel_nested"] = mv("ctx_rel_nested", (3, 2, -1))
     ops["arc"] = shape(lambda p, d: c10.arc_case(p, d, 4.0, 90, None, 0))
     ops["arc-z"] = shape(lambda p, d: c10.arc_case(p, d, 3.0, 270, 2.0, 135))
     ops["arc_radius"] = shape(lambda p, d: c10.arc_radius_case(p, d, 5.0, 0.6, 30))
@@ -117,6 +122,28 @@ def apply(run, kind, largs, start):
                 g.move([mid[i] - start[i] for i in range(3)])
                 g.set_distance_mode("absolute")
                 g.move(t)
+        elif kind in ("ctx_abs_bypass", "ctx_abs_nested"):
+            t = largs["target"]
+            mid = [start[0], start[1], t[2]]
+            with g.absolute_mode():
+                g.move(x=start[0], y=start[1], z=start[2])
+                if kind == "ctx_abs_bypass":
+                    g.rapid_absolute(x=mid[0], y=mid[1], z=mid[2])
+                else:
+                    with g.relative_mode():
+                        g.move(z=mid[2] - start[2])
+                g.move(t)
+        elif kind in ("ctx_rel_bypass", "ctx_rel_nested"):
+            t = largs["target"]
+            mid = [start[0], start[1], t[2]]
+            with g.relative_mode():
+                g.move(x=0.0, y=0.0)
+                if kind == "ctx_rel_bypass":
+                    g.move_absolute(x=mid[0], y=mid[1], z=mid[2])
+                else:
+                    with g.absolute_mode():
+                        g.move(mid)
+                g.move([t[i] - mid[i] for i in range(3)])
         elif kind == "ctx_rel_move":
             t = largs["target"]
             with g.relative_mode():
@@ -211,7 +238,7 @@ def run(tier, seed):
         if opts.get("transform"):
             # bypass moves ignore the transform by contract: afterwards machine and builder no longer agree and the two
             # modes legitimately diverge, so they are left out under a transform
-            pool = [n for n in pool if "absolute" not in n]
+            pool = [n for n in pool if "absolute" not in n and "bypass" not in n]
             first = [n for n in simple if "absolute" not in n]
         for h in itertools.product(first, pool):
             hists.append((STARTS[1], "clockwise", h, opts))
